@@ -7,6 +7,7 @@ H=$(git -C /repo rev-parse --short HEAD)
 run_suite() { (cd /repo && /venv/bin/python -m pytest -q -p no:cacheprovider -x 2>&1 | tail -1); }
 for dir in /tmp/mut/out/C*/A /tmp/mut/out/C*/B /tmp/mut/ported/*; do
   [ -f $dir/patch.diff ] || continue
+  if [ -n "${ONLY:-}" ] && ! echo " $ONLY " | grep -q " $(basename $(dirname $dir))/$(basename $dir) "; then continue; fi
   prop=$(basename $(dirname $dir)); var=$(basename $dir)
   if [[ $dir == /tmp/mut/ported/* ]]; then prop=${var:0:3}; var="${var:3}-ported"; demo=/tmp/mut/out/$prop/${var%-ported}/demo.py; metasrc=/tmp/mut/out/$prop/${var%-ported}/meta.json; else demo=$dir/demo.py; metasrc=$dir/meta.json; fi
   id="$prop-$var"; out=seeded/$id; mkdir -p $out
